@@ -20,6 +20,9 @@ func (tr *FnTrans) instr(in ssa.Instruction) {
 		ref := vc.alloc(tr.cur)
 		switch kindOf(et) {
 		case KStruct:
+			if isPrivateAlloc(x) {
+				vc.localPrefix[ref] = fmt.Sprintf("%s.%s", x.Name(), x.Comment)
+			}
 			vc.storeStruct(tr.cur, et, ref, vc.zero(et))
 			tr.vals[x] = Val{K: KRef, T: ref, Typ: x.Type()}
 		case KOpaque:
@@ -32,7 +35,7 @@ func (tr *FnTrans) instr(in ssa.Instruction) {
 					_, es := splitArrSort(vc.compSort[comp])
 					c := vc.hget(tr.cur, comp)
 					n := vc.fresh(comp+"@s", vc.compSort[comp])
-					vc.fact(sEq(n, sSto(c, ref, fmt.Sprintf("((as const %s) %s)", es, z.T))), "")
+					vc.fact(sEq(n, sSto(c, ref, tr.constArray(es, z.T))), "")
 					tr.cur.m[comp] = n
 				}
 				tr.vals[x] = v
@@ -162,7 +165,7 @@ func (tr *FnTrans) instr(in ssa.Instruction) {
 			_, es := splitArrSort(vc.compSort[comp])
 			cv := vc.hget(tr.cur, comp)
 			n := vc.fresh(comp+"@s", vc.compSort[comp])
-			vc.fact(sEq(n, sSto(cv, arr, fmt.Sprintf("((as const %s) %s)", es, vc.zero(et).T))), "")
+			vc.fact(sEq(n, sSto(cv, arr, tr.constArray(es, vc.zero(et).T))), "")
 			tr.cur.m[comp] = n
 		}
 		tr.define(x, Val{K: KSlice, T: fmt.Sprintf("(mk-slice %s 0 %s %s)", arr, l.T, c.T), Typ: x.Type()})
@@ -487,22 +490,57 @@ func (tr *FnTrans) bitOrConst(x string, c *big.Int, width uint) string {
 	return term
 }
 
-func (tr *FnTrans) bitGeneric(op token.Token, a, b string, width uint) string {
+func (tr *FnTrans) bitGeneric(op token.Token, a, b string, width uint, ma, mb uint64) string {
 	var ts []string
 	for k := uint(0); k < width; k++ {
 		ba, bb := sBit(a, k), sBit(b, k)
+		ha, hb := ma&(1<<k) != 0, mb&(1<<k) != 0
 		var r string
 		switch op {
 		case token.AND:
+			if !ha || !hb {
+				continue
+			}
 			r = "(ite (= (+ " + ba + " " + bb + ") 2) 1 0)"
 		case token.OR:
-			r = "(ite (>= (+ " + ba + " " + bb + ") 1) 1 0)"
+			switch {
+			case !ha && !hb:
+				continue
+			case !hb:
+				r = ba
+			case !ha:
+				r = bb
+			default:
+				r = "(ite (>= (+ " + ba + " " + bb + ") 1) 1 0)"
+			}
 		case token.XOR:
-			r = "(ite (= (+ " + ba + " " + bb + ") 1) 1 0)"
+			switch {
+			case !ha && !hb:
+				continue
+			case !hb:
+				r = ba
+			case !ha:
+				r = bb
+			default:
+				r = "(ite (= (+ " + ba + " " + bb + ") 1) 1 0)"
+			}
 		case token.AND_NOT:
-			r = "(ite (and (= " + ba + " 1) (= " + bb + " 0)) 1 0)"
+			switch {
+			case !ha:
+				continue
+			case !hb:
+				r = ba
+			default:
+				r = "(ite (and (= " + ba + " 1) (= " + bb + " 0)) 1 0)"
+			}
 		}
 		ts = append(ts, "(* "+pow2(k).String()+" "+r+")")
+	}
+	if len(ts) == 0 {
+		return "0"
+	}
+	if len(ts) == 1 {
+		return ts[0]
 	}
 	return "(+ " + strings.Join(ts, " ") + ")"
 }
@@ -625,7 +663,7 @@ func (tr *FnTrans) binop(x *ssa.BinOp) {
 		} else if c, ok := constOf(x.X); ok && x.Op == token.OR {
 			tr.define(x, Val{K: KInt, T: tr.bitOrConst(b.T, c, bits), Typ: t})
 		} else {
-			tr.define(x, Val{K: KInt, T: tr.bitGeneric(x.Op, a.T, b.T, bits), Typ: t})
+			tr.define(x, Val{K: KInt, T: tr.bitGeneric(x.Op, a.T, b.T, bits, ma, mb), Typ: t})
 		}
 	default:
 		panic(vcErrorf("unsupported binary operator %s", x.Op))
@@ -935,4 +973,78 @@ func (tr *FnTrans) setMask(v ssa.Value, m uint64) {
 		tr.masks = map[ssa.Value]uint64{}
 	}
 	tr.masks[v] = m
+}
+
+// isPrivateAlloc: a stack-allocated struct variable whose address is only
+// used for field access, whole loads and whole stores (never passed on,
+// merged or compared). Its fields live in private components.
+func isPrivateAlloc(x *ssa.Alloc) bool {
+	if x.Heap {
+		return false
+	}
+	var ok func(v ssa.Value, depth int) bool
+	ok = func(v ssa.Value, depth int) bool {
+		refs := v.Referrers()
+		if refs == nil || depth > 4 {
+			return false
+		}
+		for _, r := range *refs {
+			switch u := r.(type) {
+			case *ssa.DebugRef:
+			case *ssa.Store:
+				if u.Addr != v {
+					return false
+				}
+			case *ssa.UnOp:
+				if u.Op != token.MUL {
+					return false
+				}
+			case *ssa.FieldAddr:
+				if _, isStruct := u.Type().Underlying().(*types.Pointer).Elem().Underlying().(*types.Struct); isStruct {
+					if !ok(u, depth+1) {
+						return false
+					}
+				} else {
+					// scalar field address: only loads and stores
+					fr := u.Referrers()
+					if fr == nil {
+						return false
+					}
+					for _, q := range *fr {
+						switch w := q.(type) {
+						case *ssa.DebugRef:
+						case *ssa.Store:
+							if w.Addr != u {
+								return false
+							}
+						case *ssa.UnOp:
+							if w.Op != token.MUL {
+								return false
+							}
+						default:
+							return false
+						}
+					}
+				}
+			default:
+				return false
+			}
+		}
+		return true
+	}
+	return ok(x, 0)
+}
+
+// constArray: an array of sort es (Array Int V) whose every element is v.
+// Defaults that are not SMT values (string constants) are expressed with a
+// quantified axiom instead of (as const ...), which cvc5 rejects and which
+// makes z3's array theory incomplete.
+func (tr *FnTrans) constArray(es, v string) string {
+	_, inner := splitArrSort(es)
+	if inner != sortStr {
+		return fmt.Sprintf("((as const %s) %s)", es, v)
+	}
+	a := tr.vc.fresh("zeroarr", es)
+	tr.vc.fact(fmt.Sprintf("(forall ((j Int)) (! (= (select %s j) %s) :pattern ((select %s j))))", a, v, a), "")
+	return a
 }
